@@ -174,6 +174,14 @@ def run(case, ctx, rng):
             ctx.eq('output-length', len(got), (No + 7) // 8, **det)
             ctx.check('tweak-trace==spec', trace_ok(rec.log, wtrace), [hex(x) for x in rec.log], [hex(x) for x in wtrace], **det)
             grammar(ctx, rec.log, nb, det)
+        # caller-owned buffers: message, key and optional strings given as bytearrays; one object hashing twice
+        if L is None and (case['ml'] % 3 == 0 or key is not None):
+            from vmon.core import mutable_arg
+            bkw = {a: bytearray(b) for a, b in ckw.items()}
+            ob = call(lambda: Skein(Nb, No, **bkw))
+            if not is_exc(ob):
+                mutable_arg(ctx, 'skein==spec', (lambda buf: ob(buf)), M, want, one_object=True, **det)
+                ctx.eq('skein==spec', {a: bytes(b) for a, b in bkw.items()}, {a: bytes(b) for a, b in ckw.items()}, arg='key / option buffers left unchanged', **det)
     elif k == 'tree':
         Yl, Yf, Ym = case['Y']
         Nl = nb << Yl
@@ -194,6 +202,11 @@ def run(case, ctx, rng):
         ctx.eq('tree==spec', got, want, **det)
         if not is_exc(got):
             ctx.check('tweak-trace==spec', trace_ok(rec.log, wtrace), [hex(x) for x in rec.log], [hex(x) for x in wtrace], **det)
+        if case['nl'] % 2 == 0:
+            from vmon.core import mutable_arg
+            ot = call(lambda: Skein(Nb, Nb, **ckw))
+            if not is_exc(ot):
+                mutable_arg(ctx, 'tree==spec', (lambda buf: ot(buf)), M, want, one_object=True, **det)
     elif k == 'siblings':
         # Skein objects of different state sizes / keys but the same output length and configuration, alive together
         from vmon.core import siblings
